@@ -24,7 +24,7 @@ META = {
     "encoded": ["csr.event.EventMonitor.__init__", "csr.event.EventMonitor.elaborate", "event.Monitor.elaborate",
                 "csr.bus.Multiplexer.elaborate", "csr.reg.Register.elaborate", "csr.bus.Decoder.add/elaborate",
                 "amaranth.lib.wiring.connect (attachment)"],
-    "also": 'monitor as the third window of a decoder next to two other register banks; read data zero unless the monitor was read in the previous cycle (what sharing a decoder with other subordinates needs); 1-3 bit wide buses with 3-7 events (many-chunk, padded, non-power-of-two registers) incl. a reset-rooted write-enable / read-enable / read-pending window; second pending read issued in the clear cycle; register capacity obligation',
+    "also": 'two pending writes back to back; 1-3 bit wide buses also behind a decoder; monitor as the third window of a decoder next to two other register banks; read data zero unless the monitor was read in the previous cycle (what sharing a decoder with other subordinates needs); 1-3 bit wide buses with 3-7 events (many-chunk, padded, non-power-of-two registers) incl. a reset-rooted write-enable / read-enable / read-pending window; second pending read issued in the clear cycle; register capacity obligation',
     "bounds": "0,1,3,8,9,17 events at data width 8, 0,5,16,17 at 16 (thorough adds 2,7,16,24 / 31,32,33); alignment "
               "0-2; seeded trigger-mode mixes; three attachments; windows: enable write + read-back, enable write + "
               "pending read + line, pending read / write-one-to-clear / read with source inputs free in every cycle "
@@ -55,7 +55,7 @@ def configs(tier, seed):
     # narrow buses: many-chunk (also non-power-of-two, padded) registers with few events
     for n, dw in ((5, 1), (3, 1), (7, 2), (5, 2), (7, 3), (4, 3)):
         for al in (0, 1, 2):
-            out.append({"n": n, "dw": dw, "al": al, "attach": "direct",
+            out.append({"n": n, "dw": dw, "al": al, "attach": "direct" if (n + al) % 3 else "decoder",
                         "trg": [TRG[rnd.randrange(3)] for _ in range(n)], "montrg": "level"})
     return out
 
@@ -192,13 +192,16 @@ def queries(h, cfg):
     k_b = 1 + ce + 1 + cp + 1
 
     # (c) pending: read, write-one-to-clear, read -----------------------------------------------------------
-    def w1c(h, fr, gap=1):
+    def w1c(h, fr, gap=1, writes=1):
         a = idle(h, fr[0])
         ta = 1
         a1, Pa, t = read_reg(h, fr, ta, "pending")
         a += a1
-        a2, Wv, t = write_reg(h, fr, t, "pending")
-        a += a2
+        clears = {}
+        for _ in range(writes):        # (two writes: back to back, e.g. a pipelined initiator acknowledging A then B)
+            a2, Wv, t = write_reg(h, fr, t, "pending")
+            a += a2
+            clears[t] = Wv             # the write to the last address is in frame t-1; the register strobes at t
         T = t - 1                      # frame of the write to the last address; the register strobes at T+1
         if gap:
             a += idle(h, fr[t])
@@ -217,7 +220,7 @@ def queries(h, cfg):
                 # the monitor's own trg output
                 i0, i1 = is1(fr[t_ - 1].sig(src.i)), is1(fr[t_].sig(src.i))
                 trg = {"level": i1, "rise": z3.And(z3.Not(i0), i1), "fall": z3.And(i0, z3.Not(i1))}[mode]
-                clr = z3.Extract(k, k, Wv) == 1 if t_ == T + 1 else z3.BoolVal(False)
+                clr = z3.Extract(k, k, clears[t_]) == 1 if t_ in clears else z3.BoolVal(False)
                 p = z3.Or(trg, z3.And(p, z3.Not(clr)))
             bad.append((z3.Extract(k, k, Pb) == 1) != p)
         return a, z3.Or(*bad)
@@ -239,6 +242,9 @@ def queries(h, cfg):
     k_d = cp + ce + 1
     def w1c_nogap(h, fr):
         return w1c(h, fr, gap=0)
+
+    def w1c_twice(h, fr):
+        return w1c(h, fr, gap=1, writes=2)
     # (e) from reset: write enable, read it back, read pending over its whole reported range -------------------
     def from_reset(h, fr):
         a1, E, t = write_reg(h, fr, 0, "enable")
@@ -271,6 +277,7 @@ def queries(h, cfg):
           Q("line-is-enable-and-pending-snapshot", k_b, line, max_prefix=PFX,
             twin=(lambda h, fr: (line(h, fr)[0], is1(fr[1 + ce + 1].sig(h.mon.src.i)))) if n else None),
           Q("pending-write-one-to-clear", k_c, w1c, twin=w1c_twin, max_prefix=PFX),
+          Q("two-pending-writes-back-to-back", k_c + cp, w1c_twice, max_prefix=PFX),
           Q("reset-values", k_d, reset_vals, init="reset"),
           # what lets the monitor share a decoder with other subordinates (the decoder ORs their read data): nothing
           # on r_data unless the monitor itself was read in the previous cycle
